@@ -3,7 +3,7 @@
    /repo/tlslite/utils/constanttime.py by the translator on every run (Gen/ConstantTime.v). *)
 From Coq Require Import ZArith List Bool.
 From TV Require Import Base.Prelude Gen.ConstantTime Spec.CbcCheck Proofs.CtOps
-                       Proofs.C12_Lemmas Proofs.C12_Check Proofs.C12_Sender Proofs.C12_Corrupt Toy.ToyMac.
+                       Proofs.C12_Lemmas Proofs.C12_Check Proofs.C12_Sender Proofs.C12_Corrupt Model.C12_Seq Proofs.C12_SeqP Toy.ToyMac.
 Import ListNotations.
 Open Scope Z_scope.
 
@@ -104,6 +104,39 @@ Theorem wrong_data_rejected :
     mac_fn mac (mac_acc mac ++ mac_header seq ty ver (zlen payload') ++ payload') <> tag ->
     well_formed ver bs mac seq ty (payload' ++ tag ++ padx ++ [p]) = false.
 Proof. exact wrong_data_rejected_lem. Qed.
+
+(* "every sequence number": what the caller feeds the check as `seq` (ConnectionState.getSeqNumBytes,
+   hand model Model/C12_Seq.v tied by vm_compute correspondence on every run).  k consecutive
+   records from any starting point get the 8-byte big-endian encodings of start, start+1, ... -
+   no wrap at 2^8, 2^16, 2^32 or anywhere below 2^64 ... *)
+Theorem seq_numbers_consecutive :
+  forall (k : nat) (start : Z), 0 <= start -> start + Z.of_nat k <= 2^64 ->
+    get_seqs k {| sq_num := start |} =
+      (map (fun i => Ok (be_bytes 8 (start + Z.of_nat i))) (seq 0 k), {| sq_num := start + Z.of_nat k |}).
+Proof. exact get_seqs_consecutive_lem. Qed.
+
+(* ... the encoding is injective, so two records of one connection state never share a sequence
+   number under which a MAC would verify (no replay position) ... *)
+Theorem seq_bytes_injective :
+  forall a b, 0 <= a < 2^64 -> 0 <= b < 2^64 -> seq_bytes a = seq_bytes b -> a = b.
+Proof. exact seq_bytes_injective_lem. Qed.
+
+Theorem seq_numbers_distinct :
+  forall (k : nat) (start : Z) (i j : nat), 0 <= start -> start + Z.of_nat k <= 2^64 ->
+    (i < k)%nat -> (j < k)%nat -> i <> j ->
+    nth i (fst (get_seqs k {| sq_num := start |})) (Err ValueError) <>
+    nth j (fst (get_seqs k {| sq_num := start |})) (Err ValueError).
+Proof. exact get_seqs_distinct_lem. Qed.
+
+(* ... each is 8 bytes (the `seq` argument of check_eq_spec), and at 2^64 the code refuses
+   (ValueError, state unchanged) instead of wrapping. *)
+Theorem seq_bytes_wellformed :
+  forall n b, seq_bytes n = Ok b -> length b = 8%nat /\ all_bytes b = true.
+Proof. exact seq_bytes_shape. Qed.
+
+Theorem seq_number_never_wraps :
+  forall st, 2^64 <= sq_num st -> get_seq st = (Err ValueError, st).
+Proof. exact get_seq_refuses_lem. Qed.
 
 (* the hypotheses are satisfiable: the toy MAC used in the correspondence meets the oracle contract *)
 Example mac_contract_satisfiable : forall key m,
